@@ -149,6 +149,7 @@ theorem flip_cases (s s' : St) (e : Ev) (i : Nat) (hi : Inv s) (hs : step s e = 
   | relCS b =>
     simp only [step] at hs; split at hs <;> try simp at hs
     split at hs <;> try simp at hs
+    case h_2 => obtain ⟨_, rfl⟩ := hs; exact (nf _ rfl h1).elim
     obtain ⟨_, rfl⟩ := hs
     obtain ⟨hr, hl, heq⟩ := flip_afterRemove _ i h1 (by exact hrel) (by exact h0)
     exact Or.inl ⟨hr, _, .lastRef b (Or.inl rfl) hl heq, ⟨rfl, rfl, rfl, rfl, rfl, rfl, rfl, rfl, rfl, rfl, rfl⟩⟩
